@@ -702,7 +702,7 @@ def evaluate_all(ctx, schemas, cases, refs):
 def run(ctx):
     rng = ctx.rng
     th = ctx.thorough
-    schemas = [msggen.matrix_schema()] + [msggen.random_schema(rng) for _ in range(5 if not th else 30)]
+    schemas = [msggen.matrix_schema()] + [msggen.random_schema(rng) for _ in range(5 if not th else 30)] + msggen.twin_schemas()
     prelude = "\n".join(f"Definition sc{i} : schema := {s.coq()}." for i, s in enumerate(schemas))
     budget = 120 if not th else 500
     n_msgs = (36, 9) if not th else (400, 60)
